@@ -581,4 +581,154 @@ func framerRules(r *engine.Report, p *engine.Program) {
 	}
 	r.Check("R2-framer", "framer.RecvData copies the caller's bytes and never keeps the caller's slice", rd.Pos(), len(retained) == 0 && appends == 1,
 		"received bytes are appended (copied) to the framer's own buffer; the backends reuse their read buffer for the next read", fmt.Sprintf("RecvData keeps a reference to the caller's read buffer (%v): the next read of the backend overwrites a partially received frame", retained))
+	streamReaderKeepsBytes(r, p)
+	sizeIndependentPath(r, p)
+}
+
+// sizeIndependentPath: a payload of any length up to the advertised MTU takes the same path. On
+// the send / forward / deliver path no branch may depend on the length of the payload or of the
+// encoded message, except a refusal of payloads strictly longer than the MTU (len(payload) > mtu).
+func sizeIndependentPath(r *engine.Report, p *engine.Program) {
+	names := []string{"(*netceptor.PacketConn).WriteTo", "(*netceptor.Netceptor).sendMessage", "(*netceptor.Netceptor).SendMessageWithHopsToLive",
+		"(*netceptor.Netceptor).forwardMessage", "(*netceptor.Netceptor).handleMessageData", "(*netceptor.Netceptor).translateDataFromMessage"}
+	mtu := p.Field("netceptor", "Netceptor", "mtu")
+	dataF := p.Field("netceptor", "MessageData", "Data")
+	isByteLen := func(v ssa.Value) (ssa.Value, bool) {
+		v = engine.Unwrap(v)
+		c, ok := v.(*ssa.Call)
+		if !ok {
+			return nil, false
+		}
+		b, ok := c.Common().Value.(*ssa.Builtin)
+		if !ok || b.Name() != "len" {
+			return nil, false
+		}
+		a := c.Common().Args[0]
+		if sl, ok := a.Type().Underlying().(*types.Slice); ok {
+			if bt, ok := sl.Elem().Underlying().(*types.Basic); ok && bt.Kind() == types.Uint8 {
+				return a, true
+			}
+		}
+		return nil, false
+	}
+	isMTU := func(v ssa.Value) bool {
+		v = engine.Unwrap(v)
+		if f, _ := engine.FieldOfLoad(v); f != nil && f == mtu {
+			return true
+		}
+		if c, ok := v.(*ssa.Call); ok {
+			if o := engine.CalleeObj(c.Common()); o != nil && o.Name() == "MTU" {
+				return true
+			}
+		}
+		return false
+	}
+	nIfs, nFns := 0, 0
+	var bad []string
+	for _, n := range names {
+		fn := p.Func(n)
+		if fn == nil {
+			r.Broken("datagram path function %s not found", n)
+			continue
+		}
+		nFns++
+		var fns []*ssa.Function
+		fns = append(fns, fn)
+		fns = append(fns, fn.AnonFuncs...)
+		for _, f := range fns {
+			for _, i := range engine.Ifs(f) {
+				nIfs++
+				c := i.Cond
+				for {
+					u, ok := c.(*ssa.UnOp)
+					if !ok || u.Op != token.NOT {
+						break
+					}
+					c = u.X
+				}
+				bo, ok := c.(*ssa.BinOp)
+				if !ok {
+					continue
+				}
+				subj, isL := isByteLen(bo.X)
+				other, op := bo.Y, bo.Op
+				if !isL {
+					subj, isL = isByteLen(bo.Y)
+					other, op = bo.X, flipOp(bo.Op)
+				}
+				if !isL {
+					continue
+				}
+				// permitted: len(payload) > mtu / len(payload) <= mtu, payload = md.Data or a []byte parameter
+				payload := false
+				if fl, _ := engine.FieldOfLoad(subj); fl != nil && fl == dataF {
+					payload = true
+				}
+				if _, isP := engine.Unwrap(subj).(*ssa.Parameter); isP {
+					payload = true
+				}
+				if payload && isMTU(other) && (op == token.GTR || op == token.LEQ) {
+					continue
+				}
+				bad = append(bad, fmt.Sprintf("%s at %s", engine.FuncName(f), p.Pos(i.Cond.Pos())))
+			}
+		}
+	}
+	r.Check("R5-size-independent", "send/forward/deliver path: no branch on the payload or message length (other than payload > MTU)", token.NoPos, len(bad) == 0 && nFns == len(names),
+		fmt.Sprintf("%d branch conditions in %d path functions inspected; none compares the length of a byte slice, so every payload size 0..MTU takes the same path", nIfs, nFns),
+		"a branch depends on a length: "+strings.Join(bad, "; ")+" — payloads of some sizes up to the advertised MTU are refused or treated differently (e.g. the 36-byte header counted against the MTU)")
+}
+
+// streamReaderKeepsBytes: the external-backend stream reader works over an arbitrary net.Conn,
+// whose Read may return n > 0 together with an error (io.Reader contract), and its timeout return
+// is retried by protoReader. Every byte read must therefore reach the framer before any return:
+// from the Read call, with the n <= 0 outcomes removed, no return is reachable without RecvData.
+func streamReaderKeepsBytes(r *engine.Report, p *engine.Program) {
+	fn := p.Func("(*netceptor.netMessageConn).ReadMessage")
+	if fn == nil {
+		r.Broken("(*netceptor.netMessageConn).ReadMessage not found")
+		return
+	}
+	var read *ssa.Call
+	var recv []ssa.Instruction
+	for _, ci := range engine.CallsIn(fn) {
+		c := ci.Common()
+		if c.IsInvoke() && c.Method.Name() == "Read" {
+			read, _ = ci.(*ssa.Call)
+		}
+		if o := engine.CalleeObj(c); o != nil && o.Name() == "RecvData" {
+			recv = append(recv, ci)
+		}
+	}
+	ok := read != nil && len(recv) > 0
+	why := "the Read call on the connection or the RecvData call was not found"
+	if ok {
+		var n ssa.Value
+		for _, v := range callResult(read, 0) {
+			n = v
+		}
+		// the bytes handed to the framer are buf[:n] of this read
+		okArg := false
+		for _, rc := range recv {
+			args := rc.(ssa.CallInstruction).Common().Args
+			if sl, isS := engine.Unwrap(args[len(args)-1]).(*ssa.Slice); isS && n != nil && sl.High == n && sl.Low == nil && engine.Unwrap(sl.X) == engine.Unwrap(read.Common().Args[0]) {
+				okArg = true
+			}
+		}
+		pos, _ := engine.IntCmpEdges(fn, func(v ssa.Value) bool { return v == n }, 0, token.GTR, 0)
+		_ = pos
+		_, nonpos := engine.IntCmpEdges(fn, func(v ssa.Value) bool { return v == n }, 0, token.GTR, 0)
+		cut := engine.EdgeSet{}.Add(nonpos...)
+		isRecv := func(in ssa.Instruction) bool { return isOneOf(in, recv) }
+		lost := engine.Reach(fn, read, cut, isRecv, func(in ssa.Instruction) bool { _, isR := in.(*ssa.Return); return isR })
+		if !okArg {
+			ok = false
+			why = "RecvData is not given buf[:n] of the buffer and count of this Read"
+		} else if lost != nil {
+			ok = false
+			why = "after Read returned n > 0 a return at " + descInstr(p, lost) + " is reachable without handing the bytes to the framer: a fragment read together with a deadline error is discarded, the retry continues mid-frame and the stream is mis-framed from then on"
+		}
+	}
+	r.Check("R2-framer", "netMessageConn.ReadMessage: bytes read always reach the framer before a return", fn.Pos(), ok,
+		"from the Read call, with the n <= 0 outcomes removed, every path to a return passes framer.RecvData(buf[:n]) (the TCP/websocket sessions read from connections they create themselves, whose Read never returns data together with a deadline error)", why)
 }
